@@ -5,7 +5,7 @@
 //! PRNG that only the baton holder touches, or read from an explicit recorded schedule.
 
 use crate::alloc;
-use crate::outcome::{outcome_of_result_v, run_lex, BudgetExceeded, InjectedCrash, Outcome};
+use crate::outcome::{outcome_of_result_v, run_lex_v, BudgetExceeded, InjectedCrash, Outcome};
 use crate::reference::budget_for;
 use crate::util::{Hasher, Json, Rng, H128};
 use sas_lexer::verif::{self, Event, Knobs};
@@ -78,6 +78,9 @@ pub struct LexOp {
     pub shrink_at: Vec<u32>,
     pub crash: Option<Crash>,
     pub keep: bool,
+    /// order in which the accessors are called the first time the result is walked
+    /// (dump variant 0 token-major, 1 accessor-major, 2 backwards, 3 bulk view first)
+    pub walk: u8,
 }
 
 #[derive(Clone, Debug, PartialEq)]
@@ -999,7 +1002,7 @@ fn do_lex(
         };
     }
     verif::set_knobs(lex.knobs);
-    let (outcome, res) = run_lex(&placed, &mut || {});
+    let (outcome, res) = run_lex_v(&placed, &mut || {}, u32::from(lex.walk % 4));
     verif::set_knobs(Knobs::default());
     let steps = {
         let mut c = ctx.borrow_mut();
